@@ -7,7 +7,7 @@ interpreted path tables of the source), tied to keys.py / wallets.py / db.py by 
 Gen/GenFields.v and Glue/FieldsGlue.v.  Correspondence side (TESTING, labelled so): taint differential + scan on
 real objects."""
 import json, os, re
-from core import Case, REPO
+from core import Case, REPO, load_known
 
 PROP = 'C16'
 COQ_FILES = ['Extract/C16.v', 'Glue/FieldsGlue.v', 'Properties/C16.v']
@@ -57,6 +57,13 @@ ASSUMPTIONS = [
     'bytes with DB_FIELD_ENCRYPTION_KEY set), which is testing, not proof',
     'database handles (session, ORM rows: WalletKey.session / .wallet / ._dbkey, Wallet._session) are not followed: '
     'a public WalletKey still references the live database session of its wallet',
+    'PATH requests: HDKey.subkey_for_path is a view entry point by the VALUE of its path argument; its body and argument list '
+    'are frozen in Model/PublicViewPaths.v (compared with the regenerated ones: subkey_for_path_source_glue) and read by hand '
+    'as [sfp] (start of path, then one derivation per level); public_path_view_clean / public_key_paths_clean hold for every '
+    'number of levels; the differential side is scan-only (pvk requests)',
+    'database rows as text: the presentation methods (__repr__, __str__, ... ) of EVERY class of db.py are frozen '
+    '(database_rows_text_glue); default exports after relationships were loaded are covered by the scan only (rel requests): '
+    'a row object met inside an exported value is not followed, its repr / str is scanned',
     'truthiness corner cases (secret == 0, _x == 0) are outside the model; multisig WalletKeys are scanned, not modelled; '
     'HDKey.address() of an uncompressed key with bech32 encoding raises and is kept out of the histories',
 ]
@@ -95,6 +102,17 @@ RULE = ('corpus histories ([Wif;Public] etc. for Key and HDKey on every network)
         'secret and of every private key on the derivation path of the call (derived here with hmac/hashlib from BIP32 and '
         'the frozen BIP44/45/48/49/84 path shapes, and by the library with as_private=True); sensitivity control per entry '
         'point: the same call asking for private output must be found.  '
+        'PATHS: HDKey.subkey_for_path with every spelling of a public path (M, [M], M/, M/0, M/0/1, list forms, three levels, '
+        'with and without network) on master / cache-warm / multisig / account-depth private keys (fresh copy and one shared '
+        'object), and these plus relative and m-paths on public copies (cold, cache-warm) and on the public master; the '
+        'private keys of every level of the path are derived from the private twin and searched for; control: the private '
+        'path m/0 must be found.  prefix= as hex text and as bytes on every wif-style export.  '
+        'RELATIONSHIPS: rel requests - wallet configurations holding private keys (multisig with private cosigner keys, '
+        'single-signature) x loader histories (WalletKey.key() of multisig keys, transaction creation / signing, keys(), '
+        'multisig_children / multisig_parents / every relationship of every key row, one level deeper, info, public_master) '
+        'x every default export after every loader with the loader repeated right before it (as_json, str(as_dict()), as_dict, '
+        'keys*(as_dict=True) and their str / repr / json default=str forms, repr, transactions, get_key().as_dict(), '
+        'addresslist, info), on the wallet and on every cosigner wallet; control: as_json(include_private=True) must be found.  '
         'A case is non-trivial when the adapter produced states (no CRASH); distinct by request')
 
 N = 0xFFFFFFFFFFFFFFFFFFFFFFFFFFFFFFFEBAAEDCE6AF48A03BBFD25E8CD0364141
@@ -121,6 +139,12 @@ WITNESS_TYPES = ['legacy', 'p2sh-segwit', 'segwit']
 WAL_WARM = ['MainKey', 'MainWif', 'MainWifKey', 'Wif1', 'Pm1', 'SrcKey', 'AsDict1', 'AsJson1', 'Info', 'Pm0', 'PmKey',
             'Wif0', 'MainPublic', 'AsDict0', 'Repr', 'Reopen', 'Pm0', 'Wif1', 'Pm0', 'Pm1']
 ESCALATE_CAP = 1200
+# relative and private-looking paths: a view only when asked of a key WITHOUT private part (public copies, public master)
+PATHS_ON_PUBLIC = ['s0', 's0/1', 'l0,1', 'sm', 'lm', 'sm/0', 'sm/0/5', 's3/2/1', 'l4']
+PUBLIC_SOURCE_ENTRIES = ('HDKey.subkey_for_path', 'HDKey.child_public', 'HDKey.wif', 'HDKey.wif_public', 'HDKey.as_dict',
+                         'HDKey.as_json', 'HDKey.public')
+# loaders of the `rel` histories (what may load relationships of the database rows before the default exports are taken)
+REL_LOADERS = ['none', 'getkey', 'keykey', 'wkeys', 'children', 'parents', 'allrel', 'deeprel', 'tx', 'sign', 'info', 'pm']
 
 WK_HANDLE_POS = [1, 22, 24]      # _dbkey, session, wallet in the alphabetical WalletKey field list
 
@@ -431,7 +455,10 @@ ARG_VALUES = {
     'purpose': ['N', 'i44', 'i45', 'i48', 'i49', 'i84'],
     'multisig': ['N', 'F', 'T'],
     'witness_type': ['N', 'slegacy', 'sp2sh-segwit', 'ssegwit'],
-    'prefix': ['N', 's0488b21e', 's04b24746', 's0488ade4'],
+    'prefix': ['N', 's0488b21e', 's04b24746', 's0488ade4', 'b0488b21e', 'b0488ade4'],
+    # PATH requests: a path that starts with 'M' asks for the PUBLIC key of that position, in every spelling (text / list,
+    # bare, trailing slash, one to three levels); asked of a key that still holds its private part
+    'path': ['sM', 'lM', 'sM/', 'sM/0', 'sM/0/1', 'lM,0,1', 'sM/7/2/1', 'lM,3'],
     'child_index': ['N', 'i0', 'i7'],
     'name': ['N', 'spmname'],
     'network': ['N', '$other'],
@@ -448,6 +475,7 @@ VIEW_ENTRIES = {
     'Key.public_uncompressed_byte': 'k', 'Key.public_point': 'k',
     'HDKey.public': 'h', 'HDKey.as_dict': 'h', 'HDKey.as_json': 'h', 'HDKey.wif': 'h', 'HDKey.wif_public': 'h',
     'HDKey.public_master': 'h', 'HDKey.public_master_multisig': 'h', 'HDKey.child_public': 'h',
+    'HDKey.subkey_for_path': 'h',        # (a view by the VALUE of `path`: 'M...'; C03's rule "M on a private key is the public key")
     'WalletKey.public': 'wk', 'WalletKey.as_dict': 'wk', 'WalletKey.keys_public': 'wk',
     'Wallet.public_master': 'w', 'Wallet.wif': 'w', 'Wallet.as_dict': 'w', 'Wallet.as_json': 'w', 'Wallet.info': 'w',
     'Wallet.keys': 'w',
@@ -468,12 +496,13 @@ def entry_points():
     return gen_fields.entry_point_params(REPO)
 
 
-def arg_specs(params, rng, cap, other_net):
+def arg_specs(params, rng, cap, other_net, values=None):
     """argument combinations of one entry point: the full product of the reviewed values of its plain parameters (asks-
     for-private parameters left out), then explicit FALSE forms of the asks-for-private parameters with random other
     arguments.  Above `cap` combinations: every value of every parameter once, then a seeded sample.
     Returns (list of argspecs, list of parameter names that are not reviewed)."""
     import itertools
+    ARG_VALUES = dict(globals()['ARG_VALUES'], **(values or {}))
     unknown = [p for p, _ in params if p not in ARG_VALUES and p not in ASKS_PRIVATE]
     plain = [(p, d) for p, d in params if p in ARG_VALUES]
     ask = [p for p, _ in params if p in ASKS_PRIVATE]
@@ -554,6 +583,21 @@ def gen_pv_cases(rng, tier, nets):
             # (one request per entry point and at most 120 combinations, so a failing input names few calls)
             for i in range(0, len(specs), 120):
                 cs.append(Case('pv_' + q, 'pvk %s %s %s %s %s %s@%s' % (src, secret, chain, net, wt, q, ';'.join(specs[i:i + 120]))))
+    # ---- the same entry points asked of keys WITHOUT private part (public copy of a cold / cache-warm private key, public
+    # master): relative and 'm...' paths too - nothing reachable from the result may hold the private twin or its children
+    pplan = [('pub', 'bitcoin', 'legacy'), ('pubwarm', rng.choice(seg_nets), 'segwit'), ('pubm', rng.choice(seg_nets), 'p2sh-segwit')]
+    if big:
+        pplan += [(rng.choice(['pub', 'pubwarm', 'pubm']), n, rng.choice(WITNESS_TYPES)) for n in nets]
+    for src, net, wt in pplan:
+        secret = '%064x' % rng.randrange(1, N)
+        chain = bytes(rng.randrange(256) for _ in range(32)).hex()
+        toks = []
+        for q in PUBLIC_SOURCE_ENTRIES:
+            if q in eps:
+                specs, unknown = arg_specs(eps[q] or [], rng, 60, other(net), {'path': ARG_VALUES['path'] + PATHS_ON_PUBLIC})
+                specs = [x for x in specs if not any(('%s=%s' % (a, v)) in x for a in ASKS_PRIVATE for v in ('T', 'i1'))]
+                toks.append('%s@%s' % (q, ';'.join(specs)))
+        cs.append(Case('pv_public_source', 'pvk %s %s %s %s %s %s' % (src, secret, chain, net, wt, ' '.join(toks))))
     for net in (nets if big else [rng.choice(nets)]):
         toks = []
         for q in sorted(eps):
@@ -579,6 +623,65 @@ def gen_pv_cases(rng, tier, nets):
         seed = bytes(rng.randrange(256) for _ in range(16)).hex()
         cs.append(Case('pv_wallet_' + conf.split(':')[0], 'pvw %s %s %s %s %s %s' % (conf, seed, net, wal_wt(rng, net, wt), flags,
                                                                                     ' '.join(toks))))
+    cs += gen_rel_cases(rng, tier, nets)
+    return cs
+
+
+_STATUS = None
+
+
+def recorded(cls):
+    """inputs of a finding class that fails on the unchanged library are generated once the finding is recorded
+    (known_findings.json or VERIF_EXTRA_KNOWN)"""
+    global _STATUS
+    if _STATUS is None:
+        _STATUS = {(e.get('class') or e.get('id')): e.get('status') for e in load_known(PROP)}
+    return cls in _STATUS
+
+
+def gen_rel_cases(rng, tier, nets):
+    """default exports taken AFTER relationships of the database rows were loaded: every wallet configuration that holds a
+    private key (multisig with private cosigner keys first) x loader histories."""
+    big = tier == 'thorough'
+    cs = []
+    deep_tx = recorded('dbkey_in_row_dict')
+
+    def rseed():
+        return bytes(rng.randrange(256) for _ in range(16)).hex()
+
+    def clean(lds):
+        out = []
+        for l in lds:
+            if l == 'info' and ('tx' in out or 'sign' in out):
+                continue        # (see the adapter: info() of a wallet with transactions breaks the session)
+            if not deep_tx and ((l == 'deeprel' and ('tx' in out or 'sign' in out)) or
+                                (l in ('tx', 'sign') and 'deeprel' in out)):
+                # the `key` relationship of a transaction row holds a DbKey object (class dbkey_in_row_dict)
+                l = 'allrel' if l == 'deeprel' else None
+            if l:
+                out.append(l)
+        return out
+
+    corpus = [['none', 'getkey', 'keykey', 'wkeys', 'children', 'parents', 'allrel', 'deeprel', 'info', 'pm'],
+              ['keykey'], ['tx'], ['tx', 'sign', 'allrel', 'children'], ['children', 'tx', 'parents'], ['deeprel'],
+              ['getkey', 'tx', 'deeprel', 'sign']]
+    confs = ['ms:master+acctpub:0', 'ms:acctprv+master:1', 'ms:acctprv+acctprv+acctpub:1', 'ms:master+master:0', 'master',
+             'acctprv', 'ms:single+singlepub:0', 'single']
+    j = 0
+    for conf in confs if big else confs[:6]:
+        for lds in corpus if (big or j < 8) else corpus[:3]:
+            net = 'bitcoinlib_test' if ('tx' in lds or j % 2 == 0) else rng.choice(nets)
+            wt = wal_wt(rng, net, WITNESS_TYPES[j % 3])
+            j += 1
+            cs.append(Case('rel_' + conf.split(':')[0], 'rel %s %s %s %s - %s' % (conf, rseed(), net, wt, ','.join(clean(lds)))))
+    for _ in range(150 if big else 16):
+        multi = rng.random() < 0.7
+        conf = rng.choice([c for c in MULTI_CONFS if 'prv' in c or 'master' in c]) if multi else rng.choice(['master', 'acctprv', 'single'])
+        net = 'bitcoinlib_test' if rng.random() < 0.6 else rng.choice(nets)
+        lds = clean([rng.choice(REL_LOADERS) for _ in range(rng.randrange(1, 6))])
+        flags = 'w' if rng.random() < 0.2 else '-'
+        cs.append(Case('rel_' + conf.split(':')[0], 'rel %s %s %s %s %s %s' % (conf, rseed(), net, wal_wt(rng, net), flags,
+                                                                              ','.join(lds) or 'none')))
     return cs
 
 
@@ -708,6 +811,14 @@ def prop_check(c, out):
         if 'control=MISSED' in out:
             return 'scan sensitivity control failed (the same call asking for private output was not recognised): ' + out[:200]
         return None
+    if t == 'rel':
+        lk = real_leaks(out)
+        if lk:
+            return ('private key material in a default export taken after relationships of the database rows were loaded: '
+                    + '; '.join(lk[:6]))
+        if 'control=MISSED' in out:
+            return 'scan sensitivity control failed (as_json(include_private=True) not recognised)'
+        return None
     if t in ('key', 'wk', 'wallet', 'wal'):
         lk = real_leaks(out)
         if lk:
@@ -733,8 +844,19 @@ def _only_dbkey_repr(c, io, mo):
     return c.req.startswith('wallet ') and bool(lk) and all(x.startswith('dbkey-repr') for x in lk)
 
 
+def _only_rowdict_dbkey(c, io, mo):
+    """Wallet.transactions(as_dict=True) / utxos() return the row dictionary of transaction rows; once the `key`
+    relationship of such a row has been loaded (deeprel) it holds the DbKey OBJECT, whose text is the recorded
+    DbKey.__repr__ with the wif column."""
+    lk = real_leaks(io)
+    t = c.req.split(' ')
+    return t[0] == 'rel' and 'deeprel' in t[6].split(',') and bool(lk) and \
+        all(x.startswith('transactions(as_dict=True) after') or x.startswith('utxos() after') for x in lk)
+
+
 KNOWN_CLASSES = {
     'dbkey_repr_private_wif': _only_dbkey_repr,
+    'dbkey_in_row_dict': _only_rowdict_dbkey,
 }
 
 
